@@ -10,6 +10,8 @@
 //! no reader killed by a panic. `AsyncClient::forward_message*` (caller-chosen request ids, its own
 //! registration/cleanup path) is driven as a call kind of its own through the same ways of ending
 //! without a response; there a retry under the same id must be accepted and get its own response.
+//! c06_stalled.rs adds the class "fault while ANOTHER task holds the writer in a large send stalled on
+//! backpressure, the peer then lingers": what must fail promptly has to have ended before the peer releases.
 
 use crate::common::*;
 
@@ -26,6 +28,9 @@ mod infra;
 #[cfg(feature = "net")]
 #[path = "c06_gates.rs"]
 mod gates;
+#[cfg(feature = "net")]
+#[path = "c06_stalled.rs"]
+mod stalled;
 
 #[cfg(feature = "net")]
 pub fn run(args: &Args) -> Report {
@@ -36,6 +41,7 @@ pub fn run(args: &Args) -> Report {
 pub(crate) mod imp {
     use super::gates;
     use super::infra::*;
+    use super::stalled;
     use crate::common::*;
     use crate::oracle::SpecHeader;
     use serde_json::{Value, json};
@@ -604,7 +610,10 @@ pub(crate) mod imp {
              plus gate-forced timeout-vs-response orders, task abort at every probe point, and faults landing while a caller \
              holds the writer lock; plus FORWARDED frames with caller-chosen ids (AsyncClient::forward_message[_with_timeout]) as a \
              call kind of their own: in flight at every fault of the table, timed out in the forced reader-vs-timeout orders, \
-             task-aborted / future-dropped at every probe point, each followed by a retry under the SAME id. distinct = executed (kind, fault, in-flight, timeout-mode) cells and (kind, order|trigger, \
+             task-aborted / future-dropped at every probe point, each followed by a retry under the SAME id; plus every fault that \
+             leaves the socket open (and peer close/RST) delivered while ANOTHER task holds the writer in a large send stalled on \
+             backpressure (peer stopped reading) and the peer then lingers 6 s: subscriber end-of-stream, in-flight / queued / later \
+             calls must have ended before the peer releases, the stalled sender ends with an error afterwards. distinct = executed (kind, fault, in-flight, timeout-mode) cells and (kind, order|trigger, \
              bystanders) schedules",
         );
         let stage = args.stage.as_str();
@@ -677,6 +686,11 @@ pub(crate) mod imp {
         }
         if matches!(stage, "main" | "forward") && !env.stop() {
             gates::run_fwd_cancels(&mut env, &mut rep, &mut st, &mut rng, args);
+        }
+        // faults delivered while ANOTHER task holds the writer in a stalled large send (one concurrent batch;
+        // own random stream; runs even when the wall cap of the older stages is used up)
+        if matches!(stage, "main" | "stalled") {
+            stalled::run_stalled(&mut env, &mut rep, &mut st, args);
         }
         probes_remove();
         quiet_panics(false);
